@@ -52,6 +52,16 @@ CLAIMED = {
          'Documents are rendered from a model (fields with 4 first-line shapes and every sequence of 0..3 continuation lines over 8 line shapes; paragraphs of <= 3 fields; documents of <= 3 paragraphs) and the expected paragraphs are computed from the model, not parsed. Every execution with <= 1 (quick; 2 on a thinner base) / 2 (thorough) deviations among CRLF, key/value spacing, blank-line runs, missing final newline, a comment at every physical line boundary and byte delivery (one byte per Read, 7-byte chunks, a split at every offset) is read through 7 access paths (Next loop, All, Unmarshal into a slice, repeated Decode, Next x j then All) that must all return the model. The listing invariant (values for exactly the listed fields, each listed once) is checked on every string of length <= 7 / 9 over 8 symbols.',
          'An empty first line contributes no logical line; whitespace-only separator lines are outside the well-formed class; longer documents are not explored.',
          'DESIGN.md §3 C07'),
+ 'C13': ('model_checking',
+         'bounded-exhaustive enumeration of archives from a member-list model x all reader operation sequences up to a depth (explicit-state search over Next / read / partial read / seek+re-read) x ReaderAt end-of-input conventions',
+         'All archives of 0..3 (quick) / 0..4 (thorough) members over a 14-shape member alphabet (16-byte names, trailing slash, embedded blank, sizes 0/1/2/5/61 with data containing header and global magic bytes, blank numeric columns, blank mode) are built by the harness writer (cross-checked against binutils ar on every run) and iterated with the real reader under two legal ReaderAt EOF conventions; on each archive every sequence of operations (Next, read all / part of an already returned member, Seek(0) and re-read) up to depth 2n+2 is executed and every observation compared with the member list: metadata, exact bytes, earlier readers staying valid after later Next calls, io.EOF repeatedly at the end.',
+         'The full operation-sequence product is completed for n <= 2 on all shapes and for n = 3 / 4 on reduced archive sets (stated in the evidence bounds).',
+         'DESIGN.md §3 C13, agent-notes/C13.md'),
+ 'C15': ('model_checking',
+         'exhaustive fault enumeration on valid archives (per-column corruption classes up to 2/3 simultaneous faults, truncation at every offset, duplication/transposition of members, all short byte strings after the magic) driven through Ar.Next with a step budget and through deb.Load under a hang guard',
+         'One value per decision class per header column (size: blank, true, +-1, 0, -1, -2, -59, -60, -61, -120, +5, huge, hex, exponent, text, padded; timestamp/uid/gid; name; magic bytes) is enumerated in all single and double (quick) / triple (thorough) combinations on 2- and 3-member archives, plus truncation at every offset, every duplication and transposition, all strings of length <= 3 over 5 bytes after the global magic, and the same through deb.Load with stored and gzip members. Invariants checked on every execution: no panic; at most floor(len/60)+1 successful steps; end in io.EOF or error; every returned member has header magic, Size >= 0 and a reader delivering exactly Size bytes; two runs give the same outcome class; deb.Load returns (20 s hang guard, 10^6 x a normal execution).',
+         'Arbitrary byte strings beyond the structured corruption classes are not enumerated (the statement names fuzzing for that, a different technique); third-party decoders on hostile streams are outside the claim.',
+         'DESIGN.md §3 C15, agent-notes/C15.md'),
 }
 REASON_PENDING = 'check not built yet in this session (planned: see DESIGN.md §3); no claim is made until it exists'
 
